@@ -2869,6 +2869,7 @@ impl Node {
     /// The node tells us that it is forgetting a channel
     pub fn forget_channel(&self, channel_id: &ChannelId) -> Result<(), Status> {
         let mut stub_found = false;
+        let mut ready_found = false;
         // As per devrandom the lock order should be node_state -> channels -> channel
         let mut node_state: MutexGuard<'_, NodeState> = self.get_state();
         let mut channels = self.get_channels();
@@ -2888,6 +2889,7 @@ impl Node {
                 ChannelSlot::Ready(chan) => {
                     info!("forget_channel {}", channel_id);
                     chan.forget()?;
+                    ready_found = true;
                 }
             };
             if channel_id.oid() > node_state.dbid_high_water_mark {
@@ -2904,6 +2906,16 @@ impl Node {
             self.persister.delete_channel(&self.get_id(), &channel_id).unwrap_or_else(|err| {
                 panic!("could not delete channel {}: {:?}", &channel_id, err)
             });
+        }
+        drop(channels);
+        drop(node_state);
+        if ready_found {
+            // The forget flag lives in the channel's monitor state, which is persisted
+            // as part of the chain tracker entry.
+            let tracker = self.get_tracker();
+            self.persister
+                .update_tracker(&self.get_id(), &tracker)
+                .unwrap_or_else(|err| panic!("could not update tracker: {:?}", err));
         }
         return Ok(());
     }
